@@ -13,10 +13,38 @@ use narsese::conversion::inter_type::lexical_fold::TryFoldInto;
 use narsese::enum_narsese::{Budget as EBudget, Narsese as ENarsese, Sentence as ESentence, Task as ETask, Term as ETerm, Truth as ETruth};
 use narsese::lexical::{Narsese as LexNarsese, Sentence as LexSentence, Task as LexTask, Term as LexTerm};
 
+/// create a format of vocabulary `g` in the per-thread slot and use it on a set and a compound
+pub fn warm_slot(g: Fmt) {
+    let v = Vocab::of(g);
+    let a = LexTerm::new_atom("", "A");
+    let t = LexTerm::new_statement(
+        v.copulas[0].clone(),
+        LexTerm::new_set(v.set_brackets[0].0.clone(), vec![a.clone(), a.clone()], v.set_brackets[0].1.clone()),
+        LexTerm::new_compound(v.connecters[0].clone(), vec![a.clone(), a.clone()]),
+    );
+    let _ = observe(|| {
+        with_recreated_lex(g, |l| {
+            let s = l.format_term(&t);
+            let _ = l.parse(&s);
+            let _ = l.parse_term(&s);
+        })
+    });
+}
+
+/// entries: `parse`, `parse_term` on the static instance; `parse@recreated`, `parse_term@recreated`
+/// on a format created a moment ago by the public factory in the per-thread slot (where a format of
+/// another vocabulary usually lived just before)
 pub fn lex_call(f: Fmt, entry: &str, s: &str) -> Result<&'static str, String> {
+    if let Some(base) = entry.strip_suffix("@recreated") {
+        return with_recreated_lex(f, |l| lex_call_in(l, base, s));
+    }
+    lex_call_in(f.l(), entry, s)
+}
+
+fn lex_call_in(l: &narsese::conversion::string::impl_lexical::NarseseFormat, entry: &str, s: &str) -> Result<&'static str, String> {
     let r = observe(|| -> &'static str {
         match entry {
-            "parse" => match f.l().parse(s) {
+            "parse" => match l.parse(s) {
                 Ok(_) => "ok",
                 Err(e) => {
                     let _ = e.to_string();
@@ -24,7 +52,7 @@ pub fn lex_call(f: Fmt, entry: &str, s: &str) -> Result<&'static str, String> {
                     "err"
                 }
             },
-            _ => match f.l().parse_term(s) {
+            _ => match l.parse_term(s) {
                 Ok(_) => "ok",
                 Err(e) => {
                     let _ = e.to_string();
@@ -110,7 +138,22 @@ pub fn probe_string(ctx: &mut Ctx, f: Fmt, s: &str, family: &str) {
         ctx.report.nontrivial(&format!("{}|{}", f.name(), s));
     }
     let n_chars = s.chars().count();
-    for entry in ["parse", "parse_term"] {
+    // one string in six (and every replay) also goes through a re-created format; a replay first
+    // puts the two other vocabularies into the slot, one after the other
+    let recreated = family == "replay" || ctx.report.evaluations % 6 == 0;
+    if family == "replay" {
+        for g in ALL_FMT.iter().filter(|g| **g != f) {
+            warm_slot(*g);
+        }
+    } else if recreated {
+        // (the strings of one format come in long runs: put another vocabulary into the slot first)
+        let g = ALL_FMT[(n_chars + ctx.report.evaluations as usize / 6) % 3];
+        if g != f || last_recreated().is_none() {
+            warm_slot(g);
+        }
+    }
+    let entries: &[&str] = if recreated { &["parse", "parse_term", "parse@recreated", "parse_term@recreated"] } else { &["parse", "parse_term"] };
+    for entry in entries.iter().copied() {
         #[cfg(feature = "hooks")]
         narsese::verif_hooks::enable(true);
         let t0 = std::time::Instant::now();
